@@ -172,3 +172,61 @@ fn c11_stream_reach() {
     stream_check(3);
     assert!(false, "vacuity witness");
 }
+
+/* ---------- the stub's contract, checked on the real logos DFA for short inputs ---------- */
+
+fn dfa_check<const N: usize>() {
+    let b: [u8; N] = kani::any();
+    let mut i = 0;
+    while i < N {
+        kani::assume(b[i] < 0x80);
+        i += 1;
+    }
+    let src = unsafe { std::str::from_utf8_unchecked(&b) };
+    let mut raw = Tok::lexer(src);
+    let mut end = 0usize;
+    let mut steps = 0;
+    while steps <= N {
+        steps += 1;
+        match raw.next() {
+            | None => break,
+            | Some(Ok(tok)) => {
+                let span = raw.span();
+                assert!(span.start >= end && span.end > span.start && span.end <= N, "raw tokens are non-empty, in order and inside the source");
+                end = span.end;
+                std::mem::forget(tok);
+            }
+            | Some(Err(_)) => assert!(false, "logos yielded Err: some character is matched by no rule"),
+        }
+    }
+    std::mem::forget(raw);
+}
+
+//@ id: c11_dfa_b1
+//@ property: C11
+//@ tier: quick
+//@ encodes: the logos-generated <Tok as Logos>::lex (real DFA, no stub), logos::Lexer::{next, span}
+//@ sym: source text of exactly 1 ASCII byte (all 128)
+//@ oracle: the contract the c11_stream stub relies on: never Err, tokens non-empty, ordered, inside the source
+//@ bounds: 1 byte, ASCII; unwind 4
+//@ replay: playback
+#[kani::proof]
+#[kani::unwind(4)]
+fn c11_dfa_b1() {
+    dfa_check::<1>();
+}
+
+//@ id: c11_dfa_b2
+//@ property: C11
+//@ tier: thorough
+//@ encodes: the logos-generated <Tok as Logos>::lex (real DFA, no stub), logos::Lexer::{next, span}
+//@ sym: source text of exactly 2 ASCII bytes (all 16,384)
+//@ oracle: as c11_dfa_b1
+//@ bounds: 2 bytes, ASCII; unwind 5
+//@ replay: playback
+//@ timeout: 2400
+#[kani::proof]
+#[kani::unwind(5)]
+fn c11_dfa_b2() {
+    dfa_check::<2>();
+}
